@@ -2,10 +2,10 @@ SPECIFICATION Spec
 CONSTANTS
   Node = {n1, n2, n3}
   MaxTerm = 2
-  MaxLog = 4
+  MaxLog = 5
   NonCmdKinds = {}
   WarmStart = TRUE
-  MaxRestarts = 1
+  MaxRestarts = 0
   UpgradeStrong = TRUE
   VerifyQuorum = TRUE
   RecheckTerm = TRUE
